@@ -361,6 +361,8 @@ where
                     );
                     parse_stack.push_state(context, state);
                     builder.shift_action(context, next_token);
+                    // The layout belongs to the token just shifted.
+                    context.set_layout_ahead(None);
 
                     log!(
                         "{} at {:?} [{:?}]:\n{}\n",
